@@ -8,6 +8,14 @@ CHECKS = {
    technique="coverage-guided fuzzing (libFuzzer, structure-aware decoding, ASan) + exhaustive boundary-product enumeration, differential oracle = GMP",
    text="Every big-integer entry point of bigint.c/foam_i.c is compared with GMP on the full product of values within +-2 of 2^k (k<=200 quick, 520 thorough; both signs; all pairs; every binary op) and on coverage-guided structured operands up to 4000 bits. Exploration: absence of a defect outside the explored operands is not shown.",
    note="Trusted: GMP, the harness decoding, malloc-backed storage (STO_USE_MALLOC). bintMod's sign convention is taken from fiBIntRem.", design="4 C11"),
+ "C10": dict(level="exploration", engine="rapidcheck-stateful",
+   technique="stateful model-based property testing (rapidcheck histories, fork-isolated, reference model of live blocks) + exhaustive enumeration of short histories",
+   text="Random alloc/free/resize/recode/link/root/gc histories (<=200 steps quick, up to 1e5 thorough) and all histories of length <=5 (thorough <=6) over a 10-letter alphabet run on the real allocator in both build flavours; after every step alignment, size, disjointness, byte patterns, code, survival of reachable blocks and stoAudit are checked.",
+   note="Trusted: the C++ model; survival asserted only for blocks reachable from static roots the marker scans.", design="4 C10"),
+ "C19": dict(level="exploration", engine="exhaustive-loop+hypothesis",
+   technique="exhaustive enumeration of all 2^32 single-precision patterns and boundary/random double patterns through round-trip identities; generated-literal differential through the compiler",
+   text="All 2^32 single patterns and 270k+ boundary double patterns (plus seeded random ones) survive the portable encoding and dissemble/assemble bit-exactly; compiler-level layers compare folded, interpreted, compiled and reloaded constants.",
+   note="Trusted: IEEE-754 host, Python float() as correctly rounded reference for double literals.", design="4 C19"),
  "C20": dict(level="exploration", engine="rapidcheck-stateful",
    technique="model-based property testing (rapidcheck op histories vs std::map/multimap/vector<bool>/truth tables, ASan) + exhaustive DNF formula enumeration",
    text="Histories of operations run in lock step against textbook models for table, btree, priq, bitv/intset, buffer and dnf, plus every formula over <=4 (thorough <=8) atoms to depth 2 against truth tables. Two genuine dnf defects are listed as known findings and excluded by construction (call-site hook / syntactic class).",
@@ -52,7 +60,8 @@ def main():
                   "source_commits": hooks, "add_only": True},
         "engines": [
             {"name": "libfuzzer+product", "path": "harness/bigint_fuzz.cc", "serves_properties": ["C11"], "kind_free_text": "libFuzzer target with GMP oracle; deterministic boundary product driver"},
-            {"name": "rapidcheck-stateful", "path": "harness/containers_rc.cc", "serves_properties": ["C20"], "kind_free_text": "rapidcheck-generated operation histories against reference models"},
+            {"name": "rapidcheck-stateful", "path": "harness/containers_rc.cc", "serves_properties": ["C10", "C20"], "kind_free_text": "rapidcheck-generated operation histories against reference models"},
+            {"name": "exhaustive-loop+hypothesis", "path": "harness/xfloat_check.cc", "serves_properties": ["C19"], "kind_free_text": "exhaustive bit-pattern loops; Hypothesis-generated literals through the compiler"},
             {"name": "hypothesis-subprocess", "path": "vt/", "serves_properties": [], "kind_free_text": "Hypothesis-generated programs/inputs driving the compiler under test as a subprocess"},
         ],
         "checks": checks,
